@@ -25,10 +25,14 @@ def conv(typ, v, sc=1.0):
         return np.int64(v)
     if typ == "Q":
         return Q(v, 4) * Q(sc)
+    if typ == "np_u8":           # unsigned narrow integers (counts): arithmetic that wraps around if kept in that type
+        return np.uint8(abs(int(v)) * 9 % 256)
+    if typ == "arr0d":           # 0-dimensional arrays
+        return np.array(v / 4.0 * sc)
     raise ValueError(typ)
 
 
-TYPES = ["int", "float", "np64", "np32", "npint", "Q"]
+TYPES = ["int", "float", "np64", "np32", "npint", "Q", "np_u8", "arr0d"]
 KEYSETS = [["a", "b", "c", "d"], [0, 1, 2, 3], [("t", 1), ("t", 2), ("u", 1)], ["x", 7, ("k",), 2.5],
            list(range(9)), [f"label{j}" for j in range(7)], ["a", "b"]]
 
@@ -64,7 +68,7 @@ def main(run):
         else:
             alpha = rnd.choice([0.5, 0.25, 1.0, 0.125])
         mode = rnd.choice(["random", "random", "zero-sum-pairs", "all-zero", "single-key", "cancel-late"])
-        sc = rnd.choice([1.0, 1.0, 2.0 ** -40, 2.0 ** -60, 2.0 ** 40]) if typ in ("float", "np64", "np32", "Q") else 1.0
+        sc = rnd.choice([1.0, 1.0, 2.0 ** -40, 2.0 ** -60, 2.0 ** 40]) if typ in ("float", "np64", "np32", "Q", "arr0d") else 1.0
         base = ExponentialSmoothingTracker(alpha) if dyn else WelfordTracker()
         mt, twin = MultiValueTracker(base), MultiValueTracker(base)
         base.update(conv(typ, 17, sc) if typ != "int" else 17)      # the user keeps using the base tracker object: must not matter
@@ -110,7 +114,7 @@ def main(run):
             eps = 1.2e-7 if typ == "np32" else 2.3e-16
             for k in seen_keys:
                 e, g = exp[k], got[k]
-                okv = (g == e) if exactmode else abs(float(g) - float(e)) <= 64 * (t + 2) * eps * 21 * sc
+                okv = (g == e) if exactmode else abs(float(g) - float(e)) <= 64 * (t + 2) * eps * (256 if typ == "np_u8" else 21) * sc
                 if not okv:
                     run.violation("per-key-value", f"{tag}: key {k!r} reports {g!r}, reference {e!r}", replay)
                     ok_hist = False
@@ -144,14 +148,16 @@ def main(run):
                     ok_hist = False
             elif zero:
                 run.count("zero-sum-states")
-                if not all(type(v) in (int, float, np.float64, np.float32, Q) and v == 0 and finite(v) for v in norm.values()) \
+                if not all(type(v) in (int, float, np.float64, np.float32, Q, np.ndarray) and v == 0 and finite(v) for v in norm.values()) \
                         or set(norm) != set(seen_keys) or fp_events:
                     run.violation("normalize-zero-sum", f"{tag}: zero sum must give all 0.0, got {norm!r}; FP events {fp_events}", replay)
                     ok_hist = False
             elif tot != 0:
                 s = sum(norm.values())
                 nt = 0 if exactmode else 1e-9 if typ != "np32" else 1e-3
-                well = exactmode or abs(float(fsum)) > 1e-6 * sc    # float sums that nearly cancel are ill-conditioned: skip ratios
+                # float sums that nearly cancel are ill-conditioned (relative error of the sum ~ eps * max|value| / |sum|): skip ratios
+                mxv = max(abs(float(v)) for v in got.values())
+                well = exactmode or abs(float(fsum)) > (1e-3 if typ == "np32" else 1e-6) * mxv
                 if well:
                     run.count("nonzero-sum-states")
                     good = (s == 1) if exactmode else abs(float(s) - 1) <= nt
